@@ -1,5 +1,3 @@
-# protocol codec: pure code, no container rewrite needed
-group("proto", family="std", shrinks={}, overlays={"src/protocol/parser.rs": "ovl_parser.rs"})
 FMT = ["alloc::fmt::format -> empty String (error wording is not part of any property)"]
 CUT = ["parse_array/parse_map/parse_set/parse_double -> assume(false): inputs in which a frame begins with * % ~ , are outside this harness"]
 
